@@ -781,10 +781,38 @@ class HistorySurface(core.Surface):
         for cid in p["shares"] + p["not_new"]:
             if cid in o["executed"] and cid not in o["identity"]:
                 bad.append(f"call {cid}: model predicts a result that shares an object with the receiver; none observed")
+        calls = {c["id"]: c for c in valid_calls(x)}
+
+        def precise(cid):
+            """the symbolic model tells two expression calls apart by the parameters they READ; it is exact on expressions built from
+            the functions it knows with literal names.  An expression that wraps a reference in a function the library does not
+            implement ({"Fn::ToJsonString": {"Fn::ImportValue": "A"}}: walked as a plain object by the library, opaque to the
+            symbolic model) or computes the name it refers to ({"Ref": {"Ref": ..}}) is outside that fragment: "equal results" is
+            not predicted for it (false alarm of the thorough tier, corrected: the quick tier never drew such a pair)."""
+            c = calls.get(cid)
+            if not c or c.get("op") != "expr":
+                return True
+            pool_e = x.get("exprs") or []
+            e = pool_e[c["e"] % len(pool_e)] if pool_e and isinstance(c.get("e"), int) else None
+
+            def ok(v):
+                if isinstance(v, dict):
+                    if len(v) == 1:
+                        k = next(iter(v))
+                        if isinstance(k, str) and (k.startswith("Fn::") or k in ("Ref", "Condition")):
+                            if k not in core.MODEL_FUNCTIONS:
+                                return False
+                            if k in ("Ref", "Fn::ImportValue", "Condition") and not isinstance(v[k], str):
+                                return False
+                    return all(ok(z) for z in v.values())
+                if isinstance(v, list):
+                    return all(ok(z) for z in v)
+                return True
+            return isinstance(e, dict) and ok(e.get("expr"))
         for cid in o["executed"]:
             first = p["classes"].get(cid)
             if first is not None and first != cid and first in o["results"] and via.get(first) == via.get(cid) \
-                    and o["results"][first] != o["results"][cid]:
+                    and precise(cid) and precise(first) and o["results"][first] != o["results"][cid]:
                 bad.append(f"call {cid} is the same call as call {first} (model: equal results) but the implementation's results differ")
         for cid, d in o["pristine_mismatch"].items():
             bad.append(f"call {cid}: result differs from the same call on fresh copies in a pristine process")
